@@ -22,6 +22,7 @@ import (
 	"sync/atomic"
 	"time"
 
+	"verif/internal/bisweep"
 	"verif/internal/drive"
 	"verif/internal/fakeredis"
 	"verif/internal/harness"
@@ -77,8 +78,19 @@ func main() {
 	gcOverlapsRekey(run, run.N(30, 400))
 	bisyncCases(run, nBi)
 
+	// the format switch with one lost reply on a target whose client stays usable (cluster of one
+	// primary; engine of C14's fault sweeps, which installs its own process-wide configuration:
+	// nothing of this check runs beside it)
+	nSw := run.N(1, 36)
+	drv := bisweep.NewDriver(syncer.VerifNewOutput)
+	bisweep.SwitchSweeps(run, bisweep.FaultOptions{NCases: nSw, Workers: 3, Driver: drv, Factory: bisweep.NewStandalone, DelSamples: run.N(1, 8)})
+	drv.Close()
+	if err := initGlobalConfig(); err != nil {
+		run.Inconclusive("global configuration: %v", err)
+	}
+
 	setReplayMode(false, "sync")
-	run.Set("cases", map[string]int{"checkpoint_moves": nCp, "gc": nGc, "mode_switch": nBi})
+	run.Set("cases", map[string]int{"checkpoint_moves": nCp, "gc": nGc, "mode_switch": nBi, "mode_switch_lost_reply_on_cluster_of_one": nSw})
 	run.Set("repetitions_per_case", reps)
 	run.Exit()
 }
